@@ -98,3 +98,29 @@ pub fn narrow<const B: usize, const W: usize>(nd: &mut Nd) {
         }
     }
 }
+
+/// pow_mod on every (a, e, m) of a narrow width, compositional: mul_mod replaced by its specification.
+/// Oracle: left-to-right binary exponentiation in u16 (the implementation works right-to-left).
+pub fn pow_mod_spec<const B: usize>(nd: &mut Nd) {
+    let mask: u64 = (1u64 << B) - 1;
+    let a = (nd.u8() as u64) & mask;
+    let e = (nd.u8() as u64) & mask;
+    let m = (nd.u8() as u64) & mask;
+    let (ua, ue, um) = (Uint::<B, 1>::from_limbs([a]), Uint::<B, 1>::from_limbs([e]), Uint::<B, 1>::from_limbs([m]));
+    let (a16, m16) = (a as u16, m as u16);
+    let mut want: u16 = if m == 0 { 0 } else { 1 % m16 };
+    let mut i = B;
+    while i > 0 {
+        i -= 1;
+        if m != 0 {
+            want = (want * want) % m16;
+            if (e >> i) & 1 == 1 {
+                want = (want * (a16 % m16)) % m16;
+            }
+        }
+    }
+    cov!(nd, "zero-modulus", m == 0);
+    cov!(nd, "unreduced-operand", m != 0 && a >= m);
+    cov!(nd, "nilpotent-base", m > 1 && a % m != 0 && e > 0 && want == 0);
+    chk!(nd, "C10.pow_mod", ua.pow_mod(ue, um).as_limbs()[0] == want as u64);
+}
